@@ -223,7 +223,9 @@ func (c *Client) Connect() error {
 	}
 	// TODO: Do we always want to send initial presence automatically ?
 	// Do we need an option to avoid that or do we rely on client to send the presence itself ?
-	err = c.sendWithWriter(c.transport, []byte(InitialPresence))
+	// The initial presence is the first stanza of the session: with stream management it is held and
+	// numbered like every other one, as the server counts it in the "h" of its acknowledgements.
+	err = c.SendRaw(InitialPresence)
 	// Execute the post first connection hook. Typically this holds "ask for roster" and this type of actions.
 	if c.PostConnectHook != nil {
 		err = c.PostConnectHook()
